@@ -22,6 +22,7 @@ import (
 	"path/filepath"
 	"sort"
 	"strings"
+	"time"
 
 	"github.com/dolthub/go-mysql-server/sql"
 
@@ -84,7 +85,15 @@ func setGlobal(name string, v interface{}) error {
 }
 
 func remoteHeads(ctx context.Context, url string, ids map[string]int) (Heads, error) {
-	ddb, err := doltdb.LoadDoltDBWithParams(ctx, types.Format_DOLT, url, nil, map[string]interface{}{dbfactory.DisableSingletonCacheParam: struct{}{}})
+	var ddb *doltdb.DoltDB
+	var err error
+	for attempt := 0; attempt < 6; attempt++ {
+		ddb, err = doltdb.LoadDoltDBWithParams(ctx, types.Format_DOLT, url, nil, map[string]interface{}{dbfactory.DisableSingletonCacheParam: struct{}{}})
+		if err == nil || !strings.Contains(err.Error(), "lock timeout") {
+			break
+		}
+		time.Sleep(time.Duration(200*(attempt+1)) * time.Millisecond) // manifest LOCK held by the pusher: retry
+	}
 	if err != nil {
 		return nil, err
 	}
@@ -137,6 +146,9 @@ func Run(raw json.RawMessage) (any, error) {
 		return nil, err
 	}
 	ctx := context.Background()
+	// push failures are written to the process's stdout without a newline; terminate that text before the kernel
+	// flushes this case's JSON line
+	defer fmt.Fprintln(os.Stdout)
 	// clean global replication state
 	setGlobal(dsess.ReplicateToRemote, "")
 	setGlobal(dsess.ReadReplicaRemote, "")
@@ -152,7 +164,9 @@ func Run(raw json.RawMessage) (any, error) {
 		return nil, err
 	}
 	defer os.RemoveAll(tmp)
-	remoteURL := "file://" + filepath.Join(tmp, "remote")
+	remoteDir := filepath.Join(tmp, "remote")
+	remoteURL := "file://" + remoteDir
+	broken := false
 
 	prim, err := util.NewEnv(true)
 	if err != nil {
@@ -184,6 +198,11 @@ func Run(raw json.RawMessage) (any, error) {
 	if err := setGlobal(dsess.ReplicateAllHeads, int8(1)); err != nil {
 		return nil, err
 	}
+	// replication errors are reported as warnings, not statement failures (what an operator sets to keep serving)
+	if err := setGlobal(dsess.SkipReplicationErrors, int8(1)); err != nil {
+		return nil, err
+	}
+	defer setGlobal(dsess.SkipReplicationErrors, int8(0))
 	rep, err := util.NewEnv(true)
 	if err != nil {
 		return nil, err
@@ -225,12 +244,35 @@ func Run(raw json.RawMessage) (any, error) {
 					ids[unS(hr.Rows[0][0])] = i + 1
 				}
 			}
+		case "break":
+			// make the remote unreachable: the directory is moved away and a regular file takes its place
+			if !broken {
+				if err := os.Rename(remoteDir, remoteDir+".off"); err != nil {
+					return nil, err
+				}
+				if err := os.WriteFile(remoteDir, []byte("not a directory"), 0o644); err != nil {
+					return nil, err
+				}
+				broken = true
+			}
+		case "fix":
+			if broken {
+				os.Remove(remoteDir)
+				if err := os.Rename(remoteDir+".off", remoteDir); err != nil {
+					return nil, err
+				}
+				broken = false
+			}
 		case "pull":
 			// a new session on the replica database: its first transaction pulls
 		default:
 			return nil, fmt.Errorf("unknown op %q", st.Op)
 		}
-		rh, err := remoteHeads(ctx, remoteURL, ids)
+		inspectURL := remoteURL
+		if broken {
+			inspectURL = remoteURL + ".off"
+		}
+		rh, err := remoteHeads(ctx, inspectURL, ids)
 		if err != nil {
 			return nil, err
 		}
